@@ -133,7 +133,10 @@ def build(ctx):
     c04obs = {o.id: o for o in c04.build(ctx)}
     c10obs = {o.id: o for o in c10.build(ctx)}
     c03obs = {o.id: o for o in c03.build(ctx)}
-    for src in [c04obs[x] for x in ("build_matrix.entries", "build_matrix.shape", "solve.contract", "ideal.step.uses_contracts", "single.step.uses_contracts", "ideal.step.mesh_ratio", "single.step.mesh_ratio", "ideal.step.rows", "single.step.rows")] + \
+    from . import c09
+    c09obs = {o.id: o for o in c09.build(ctx)}
+    # "every admissible pair of frac-face and initial pressures": the wrapper accepts exactly the initial pressures inside the table (ends included)
+    for src in [c09obs["init.pi_outside_raises"]] + [c04obs[x] for x in ("build_matrix.entries", "build_matrix.shape", "solve.contract", "ideal.step.uses_contracts", "single.step.uses_contracts", "ideal.step.mesh_ratio", "single.step.mesh_ratio", "ideal.step.rows", "single.step.rows")] + \
                [c10obs[x] for x in ("ideal.simulate.function_of_args", "single.simulate.function_of_args", "ideal.simulate.frame", "single.simulate.frame", "recovery_factor.post")] + [c03obs["rf.plateau_scale"]]:
         def both(w, a=src.replay):
             r1 = a(w) if a else None
